@@ -5,10 +5,18 @@ package pubsub
 
 //go:generate go run github.com/StephenButtolph/canoto/canoto $GOFILE
 
+import "github.com/StephenButtolph/canoto"
+
 type BatchMessage struct {
 	Messages [][]byte `canoto:"repeated bytes,1"`
 
 	canotoData canotoData_BatchMessage
+}
+
+// batchedMessageSize returns the number of bytes [msg] occupies inside a
+// serialized [BatchMessage].
+func batchedMessageSize(msg []byte) int {
+	return len(canoto__BatchMessage__Messages__tag) + int(canoto.SizeBytes(msg))
 }
 
 func CreateBatchMessage(msgs [][]byte) []byte {
